@@ -158,7 +158,16 @@ def build(stack):
             if got is not UNSET and got != request.form.get(name, None, typ):
                 return Response(('extracted %s=%r, the form says %r' % (name, got, request.form.get(name, None, typ))).encode('utf-8'))
         return Response(('posted:%s:%s' % (request.form.get('p'), request.form.get('n'))).encode('utf-8'))
-    routes = [('/resp', ep_resp), ('/ctx', ep_ctx, render), ('/stream', ep_stream), ('/deflated', ep_deflated), ('/redir', ep_redir),
+    def ep_ctxlist():
+        return [{'id': 1}, {'id': 2}]          # a render context that is not a mapping: context processors pass it on
+
+    def ep_ctxstr():
+        return 'a plain string context'
+
+    def render_any(context):
+        return Response(repr(context).encode('utf-8'), content_type='text/plain')
+    routes = [('/ctxlist', ep_ctxlist, render_any), ('/ctxstr', ep_ctxstr, render_any),
+              ('/resp', ep_resp), ('/ctx', ep_ctx, render), ('/stream', ep_stream), ('/deflated', ep_deflated), ('/redir', ep_redir),
               ('/branch/', ep_resp),
               ('/raise4', raise4), ('/ret4', ret4), ('/raise5', raise5), ('/nb', nb), ('/nb', second), ('/boom', boom),
               POST('/post', posted)]
@@ -183,6 +192,11 @@ def request_catalogue():
     out.append(('boom', '/boom', 'GET', '', b''))
     out.append(('unknown', '/zz/top', 'GET', '', b''))
     out.append(('wrong-method', '/post', 'GET', '', b''))
+    for ck in sorted(COOKIE_HDRS):
+        out.append((ck, '/resp', 'GET', 'b=kb', b''))
+    out.append(('cookie-nonascii-key-404', '/zz/top', 'GET', '', b''))
+    out.append(('ctxlist', '/ctxlist', 'GET', '', b''))
+    out.append(('ctxstr', '/ctxstr', 'GET', '', b''))
     out.append(('post', '/post', 'POST', '', b'p=1&n=abc'))
     out.append(('post-num', '/post', 'POST', '', b'p=&n=12'))
     # the URL carries parameters named like the form fields
@@ -235,8 +249,21 @@ def undo_codings(header, data):
         return None
 
 
-def call(app, path, method, query, ae, body):
+COOKIE_HDRS = {
+    # what a client may send as the signed cookie: a key with non-ASCII bytes, broken base64, no MAC at all, junk
+    'cookie-nonascii-key': u'clastic_cookie=AAAA?n\xe4me=IkFsaWNlIg=='.encode('utf-8').decode('latin-1'),
+    'cookie-bad-base64': 'clastic_cookie=%%%?a=b&c',
+    'cookie-no-mac': 'other=1; clastic_cookie=zzz',
+    'cookie-empty': 'clastic_cookie=',
+    'cookie-binary': 'clastic_cookie=\xff\xfe?\x80=\x81',
+}
+COOKIE_HDRS['cookie-nonascii-key-404'] = COOKIE_HDRS['cookie-nonascii-key']
+
+
+def call(app, path, method, query, ae, body, rlabel=None):
     hdrs = {}
+    if rlabel in COOKIE_HDRS:
+        hdrs['Cookie'] = COOKIE_HDRS[rlabel]
     if ae is not None:
         hdrs['Accept-Encoding'] = ae
     if body:
@@ -265,8 +292,8 @@ def check_stack(acc, stack, baseline_app, cache):
                 key = (rlabel, query, ae)
                 base = cache.get(key)
                 if base is None:
-                    base = cache[key] = call(baseline_app, path, method, query, ae, body)
-                res = call(app, path, method, query, ae, body)
+                    base = cache[key] = call(baseline_app, path, method, query, ae, body, rlabel)
+                res = call(app, path, method, query, ae, body, rlabel)
                 acc.evaluated += 1
                 acc.transitions += 2
                 acc.validated += 1
@@ -387,8 +414,8 @@ def replay(case):
     rlabel, path, method, query, ae = case['request']
     body = b'p=1&n=abc' if method == 'POST' else b''
     app = build(stack)
-    base = call(baseline, path, method, query, ae, body)
-    res = call(app, path, method, query, ae, body)
+    base = call(baseline, path, method, query, ae, body, rlabel)
+    res = call(app, path, method, query, ae, body, rlabel)
     if res.raised is not None or res.code != base.code:
         return False, 'with stack: %s raised=%r, without: %s' % (res.status, res.raised, base.status)
     raw = res.body or b''
